@@ -348,6 +348,12 @@ def run_c08(case):
         arms = [inv(a) for a in mab.arms]
         if len(set(arms)) != len(arms):
             return False, {"why": "duplicate arm in MAB.arms after call %d" % i, "arms": arms}
+        # the per-arm dictionaries of the policy object are keyed by exactly the current arms (the model's class invariants)
+        for attr in ("arm_to_status", "arm_to_expectation"):
+            dct = getattr(mab._imp, attr, None)
+            if isinstance(dct, dict) and (len(dct) != len(arms) or set(inv(k) for k in dct) != set(arms)):
+                return False, {"why": "%s of the policy is not keyed by the current arms after call %d (%s)" % (attr, i, o[0]),
+                               "keys": [inv(k) for k in dct], "arms": arms}
         if o[0] == "add" and out[0] == "done" and o[1] not in arms:
             return False, {"why": "added arm missing after call %d" % i}
         if o[0] == "rem" and out[0] == "done" and o[1] in arms:
